@@ -98,7 +98,36 @@ type Levels struct {
 	B Level              `json:"b"`
 }
 
+// meta is unexported: embedded by pointer (WithMeta) or by value (WithMetaV) its fields are promoted
+// all the same, and its id hides the id two levels down in Inner.Deeper.
+type meta struct {
+	ID   int    `json:"id"`
+	Note string `json:"note,omitempty"`
+}
+type Deeper struct {
+	ID string `json:"id"`
+	Z  bool   `json:"z"`
+}
+type Inner struct{ Deeper }
+type WithMeta struct {
+	*meta
+	Inner
+	K uint8 `json:"k"`
+}
+type WithMetaV struct {
+	meta
+	Inner
+}
+
+// fixedValues: values of the types reflection cannot fill (unexported embedded fields)
+var fixedValues = map[reflect.Type][]any{
+	reflect.TypeOf(WithMeta{}): {WithMeta{meta: &meta{ID: 7, Note: "n"}, Inner: Inner{Deeper{ID: "deep", Z: true}}, K: 3}, WithMeta{meta: &meta{}, K: 255},
+		WithMeta{Inner: Inner{Deeper{ID: "only-deep"}}}},
+	reflect.TypeOf(WithMetaV{}): {WithMetaV{meta: meta{ID: -1}, Inner: Inner{Deeper{ID: "deep"}}}, WithMetaV{}},
+}
+
 var named = map[string]reflect.Type{
+	"WithMeta": reflect.TypeOf(WithMeta{}), "WithMetaV": reflect.TypeOf(WithMetaV{}),
 	"PP": reflect.TypeOf(PP{}), "Levels": reflect.TypeOf(Levels{}), "EmbT": reflect.TypeOf(EmbT{}), "EmbU": reflect.TypeOf(EmbU{}),
 	"EmbA": reflect.TypeOf(EmbA{}), "EmbB": reflect.TypeOf(EmbB{}), "Node": reflect.TypeOf(Node{}), "MutA": reflect.TypeOf(MutA{}), "MutB": reflect.TypeOf(MutB{}), "Tree": reflect.TypeOf(Tree{}),
 }
@@ -311,8 +340,10 @@ func (g *gctx) typ(depth int, inContainer bool) *TD {
 		}
 		return &TD{K: k}
 	case 4:
-		n := rapid.SampledFrom([]string{"Node", "MutA", "Tree", "EmbA", "PP", "Levels"}).Draw(g.t, "named")
-		if n != "EmbA" {
+		n := rapid.SampledFrom([]string{"Node", "MutA", "Tree", "EmbA", "PP", "Levels", "WithMeta", "WithMetaV"}).Draw(g.t, "named")
+		if strings.HasPrefix(n, "WithMeta") {
+			g.feats["embedded-unexported"] = true
+		} else if n != "EmbA" {
 			g.feats["recursive"] = true
 		}
 		return &TD{K: "named", Name: n}
@@ -385,6 +416,9 @@ func (g *gctx) typ(depth int, inContainer bool) *TD {
 }
 
 func (g *gctx) value(t reflect.Type, depth int) reflect.Value {
+	if vals, ok := fixedValues[t]; ok {
+		return reflect.ValueOf(vals[rapid.IntRange(0, len(vals)-1).Draw(g.t, "fixed")])
+	}
 	v := reflect.New(t).Elem()
 	pickInt := func(bits int) int64 {
 		lo, hi := int64(math.MinInt64), int64(math.MaxInt64)
